@@ -160,6 +160,10 @@ def run_el_class(chk, cls, histories, batch=4000):
                        feats=["el:" + o[0] for o in ops])
             chk.validated += 1
             viol = [x for x in M.mon_el(ops, r["impl"]) if x.startswith(chk.prop)]
+            if viol and [x for x in M.mon_el(ops, r["model"]) if x.startswith(chk.prop)]:
+                # the monitor also rejects the trace of the PROVED model: the monitor is wrong here, not the code
+                chk.extra["monitor_rejected_model_trace"] = chk.extra.get("monitor_rejected_model_trace", 0) + 1
+                viol = []
             if viol:
                 if len(ops) > 3000:
                     # a very long history: cut it right after the first failing operation instead of delta debugging
@@ -202,6 +206,16 @@ def run_sim_class(chk, cls, scs, mons, variant=None, batch=250, tag=None):
             viol = []
             for mon in mons:
                 viol += [x for x in mon(sc, r["impl"]) if x.startswith(tag)]
+            if viol and r["diff"] is None:
+                # implementation and proved model agree on this scenario, yet the monitor objects: the monitor
+                # is wrong here (or the property is refuted by the model, which the theorems exclude)
+                chk.extra["monitor_rejected_model_trace"] = chk.extra.get("monitor_rejected_model_trace", 0) + 1
+                chk.extra.setdefault("monitor_rejections", []).append(viol[0][:160])
+                viol = []
+            elif viol and any(x.startswith(tag) for mon in mons for x in mon(sc, r["model"])):
+                chk.extra["monitor_rejected_model_trace"] = chk.extra.get("monitor_rejected_model_trace", 0) + 1
+                viol = []
+                # fall through: the traces differ, so the correspondence break is reported
             if viol:
                 small = _shrink_sim(sc, mons, tag, variant) if len(chk.violations) < 2 else sc
                 rr = corr.corr_sims([small], variant=variant)[0]
@@ -910,7 +924,9 @@ def check_C18(chk, R, S):
 # plugins: dispatcher (C15), mission (C16), random trip (C17)
 # ---------------------------------------------------------------------------------------------
 
-def run_plugin_class(chk, cls, cases, impl, to_text, monitor, nontrivial=lambda c, t: True, batch=1500):
+def run_plugin_class(chk, cls, cases, impl, to_text, monitor, nontrivial=lambda c, t: True, batch=1500, guard=True):
+    """guard: a monitor finding is reported only if the same monitor accepts the proved model's trace of
+    the same case (switched off where the monitor carries a clause that is NOT proved of the model)"""
     import plugins  # noqa: F401
     from common import run_driver, first_diff
     for i in range(0, len(cases), batch):
@@ -935,6 +951,10 @@ def run_plugin_class(chk, cls, cases, impl, to_text, monitor, nontrivial=lambda 
                        feats=[cls + ":" + (o[0] if isinstance(o, (list, tuple)) else str(o)) for o in c.get("ops", [])][:40])
             chk.validated += 1
             viol = [x for x in monitor(c, impls[j]) if x.startswith(chk.prop)]
+            if guard and viol and (impls[j] == m or [x for x in monitor(c, m) if x.startswith(chk.prop)]):
+                chk.extra["monitor_rejected_model_trace"] = chk.extra.get("monitor_rejected_model_trace", 0) + 1
+                chk.extra.setdefault("monitor_rejections", []).append(viol[0][:160])
+                viol = []
             if viol:
                 small = c
                 if len(chk.violations) < 2:
@@ -1245,7 +1265,7 @@ def check_C20(chk, R, S):
                 "is sent to geographic coordinates must move exactly as when sent to the converted point")
     cases = [item["case"] for item in corpus("C20")]
     cases += [G.gen_geo_case(R) for _ in range(S["sims"] * 4)]
-    run_plugin_class(chk, "geo-points", cases, G.run_geo_impl, G.geo_to_text, G.mon_C20)
+    run_plugin_class(chk, "geo-points", cases, G.run_geo_impl, G.geo_to_text, G.mon_C20, guard=False)
     # goto-geo == goto(converted), through the mobility handler
     from gradysim.protocol.position import geo_to_cartesian
     scs_geo, scs_xyz = [], []
